@@ -135,7 +135,10 @@ def replay_history(name, hist, nwrappers, reuse_buffer=False, variant=0):
             probs.append(("metric.probe_leaves_state", "%s: validate_loss_function changed the metric (%r -> %r)" % (name, base, state_of(metric))))
             return probs
     pairs = pairs_for(name, variant)
-    sign = -1.0 if getattr(metric, "bigger_is_better", False) else 1.0
+    try:
+        sign = -1.0 if getattr(metric, "bigger_is_better", False) else 1.0
+    except NotImplementedError:
+        sign = 1.0
     buf = {}
     for i, (w, pn) in enumerate(hist):
         y, pred = pairs[pn]
